@@ -134,7 +134,7 @@ def compile_generated(ctx, overlay, names):
     return res
 
 
-def drive(ctx, mode, overlay, srcs, driven):
+def drive(ctx, mode, overlay, srcs, driven, trace="layouttrace.ndjson"):
     """Build layoutdrv with the generated packages and run it; returns (summary, path of trace)."""
     tg, ntypes = types_table(ctx, {n: srcs[n] for n in driven})
     ex = dict(overlay)
@@ -146,7 +146,7 @@ def drive(ctx, mode, overlay, srcs, driven):
         exn.generated_compile = compile_generated(ctx, overlay, driven)
         raise
     sd = tlc.stage(ctx, "layout")
-    tf = os.path.join(sd, "layouttrace.ndjson")
+    tf = os.path.join(sd, trace)
     rc, out, err = gobuild.run_driver(ctx, drv, [mode, tf], timeout=1800)
     if rc != 0:
         raise Inconclusive("layoutdrv %s died rc=%d: %s" % (mode, rc, err[-3000:]))
